@@ -1279,6 +1279,161 @@ func c08RunHistories(c *Ctx) {
 	c.Hist(fmt.Sprintf("history-pool:%d", len(pool)))
 }
 
+// ---------------------------------------------------------------- histories: process-level state
+
+// Package-level state (caches, memo tables) survives fresh Params AND fresh Compilers, so an
+// in-process "fresh" compilation is not a clean baseline.  For a pool of constant-folding programs on
+// types wider than 64 bits (mpa.Int folds + - * of wide constants by building and evaluating a
+// circuit) the baseline of every program B is its compilation as the FIRST compilation of a new
+// child process; it is compared with B compiled in this process after the other pool programs
+// (fresh Params and Compiler each).  The pool holds pairs with the same operator and the same
+// operand bit lengths at different result types, in both orders (narrow type first / wide type
+// first), each pair with its own bit-length signature.
+func c08WidePool() []*c08Prog {
+	var out []*c08Prog
+	hex := func(bits int, lowNibble byte) string { // a constant of exactly `bits` bits
+		n := (bits + 3) / 4
+		top := []byte("1248")[(bits-1)%4]
+		b := make([]byte, n)
+		for i := range b {
+			b[i] = "f3c5a96e"[i%8]
+		}
+		b[0] = top
+		b[n-1] = lowNibble
+		return "0x" + string(b)
+	}
+	add := func(name, typ, expr, x, y string) {
+		src := fmt.Sprintf("package main\n\nconst A %s = %s\nconst B %s = %s\n\nfunc main(a, b %s) %s {\n\treturn a ^ b ^ (%s)\n}\n", typ, x, typ, y, typ, typ, expr)
+		out = append(out, &c08Prog{Name: "wide:" + name, Src: src, Kind: "history-process"})
+	}
+	type sig struct {
+		op         string
+		xb, yb     int
+		first, snd string
+	}
+	sigs := []sig{
+		{"*", 101, 68, "uint128", "uint256"}, // product needs 169 bits: truncated at 128, not at 256
+		{"*", 99, 70, "uint256", "uint128"},
+		{"*", 90, 75, "uint160", "uint192"},
+		{"+", 128, 128, "uint128", "uint256"}, // carry out of bit 127
+		{"*", 80, 60, "uint128", "uint160"},
+		{"*", 72, 72, "uint256", "uint128"},
+		{"-", 97, 66, "uint128", "uint256"}, // (add/sub of short operands hit the known C12 finding F6f: equal error text)
+		{"*", 66, 66, "uint100", "uint128"},
+	}
+	for _, sg := range sigs {
+		x, y := hex(sg.xb, 'd'), hex(sg.yb, '7')
+		for _, typ := range []string{sg.first, sg.snd} {
+			add(fmt.Sprintf("%s-%d-%d-%s", map[string]string{"*": "mul", "+": "add", "-": "sub"}[sg.op], sg.xb, sg.yb, typ), typ, "A "+sg.op+" B", x, y)
+		}
+	}
+	// wide constant shifts
+	add("shl-101-uint128", "uint128", "A << 30", hex(101, 'd'), "1")
+	add("shl-101-uint256", "uint256", "A << 30", hex(101, 'd'), "1")
+	return out
+}
+
+func c08RunProcessHistories(c *Ctx, tmp string) error {
+	exe, err := os.Executable()
+	if err != nil {
+		return err
+	}
+	pool := c08WidePool()
+	child := func(name string, progs []*c08Prog) ([]c08Obs, error) {
+		var specs []c08Prog
+		for _, p := range progs {
+			specs = append(specs, *p)
+		}
+		b, _ := json.Marshal(specs)
+		spec := filepath.Join(tmp, name+".spec.json")
+		out := filepath.Join(tmp, name+".out.json")
+		if err := os.WriteFile(spec, b, 0o644); err != nil {
+			return nil, err
+		}
+		cmd := exec.Command(exe, "c08child", "fresh", spec, out)
+		cmd.Env = os.Environ()
+		cmd.Stdout, cmd.Stderr = nil, os.Stderr
+		if err := cmd.Run(); err != nil {
+			return nil, fmt.Errorf("child %s: %v", name, err)
+		}
+		ob, err := os.ReadFile(out)
+		if err != nil {
+			return nil, err
+		}
+		var obs []c08Obs
+		if err := json.Unmarshal(ob, &obs); err != nil || len(obs) != len(progs) {
+			return nil, fmt.Errorf("child %s: bad output", name)
+		}
+		c.nEval += len(progs)
+		return obs, nil
+	}
+	differs := func(a, b c08Obs) string {
+		switch {
+		case a.Err != b.Err:
+			return "error-differs"
+		case a.Circ != b.Circ || a.Bristol != b.Bristol:
+			return "circuit-differs"
+		case a.SSA != b.SSA:
+			return "listing-differs"
+		}
+		return ""
+	}
+	// baselines: each program as the first compilation of a new process
+	base := make([]c08Obs, len(pool))
+	for i, p := range pool {
+		obs, err := child(fmt.Sprintf("wide-base-%d", i), []*c08Prog{p})
+		if err != nil {
+			return err
+		}
+		base[i] = obs[0]
+		c.Hist("kind:history-process")
+		if obs[0].Err != "" {
+			c.Hist("result:history-process:compile-error")
+			c.Note("%s does not compile: %s", p.Name, obs[0].Err)
+		}
+	}
+	// in this process: every program after the programs before it in the pool (and after everything
+	// the run compiled so far), fresh Params and Compiler each; twice
+	for round := 0; round < 2; round++ {
+		for bi, B := range pool {
+			o := c08Compile(B)
+			c.nEval++
+			c.Eval(fmt.Sprintf("history:process:%d:%s", round, B.Name), true)
+			d := differs(base[bi], o)
+			if d == "" || round > 0 {
+				continue
+			}
+			// find an A such that the fresh process [A, B] reproduces the difference
+			var culprit *c08Prog
+			for ai, A := range pool {
+				if ai == bi {
+					continue
+				}
+				obs, err := child(fmt.Sprintf("wide-pair-%d-%d", ai, bi), []*c08Prog{A, B})
+				if err != nil {
+					return err
+				}
+				if differs(base[bi], obs[1]) != "" {
+					culprit = A
+					break
+				}
+			}
+			what := fmt.Sprintf("%s compiled in a process that compiled other programs before (fresh Params and Compiler) differs from its compilation as the first program of a fresh process", B.Name)
+			replay := map[string]interface{}{"program_B": B,
+				"B_first_in_fresh_process": map[string]string{"circ": base[bi].Circ, "ssa": base[bi].SSA, "err": base[bi].Err},
+				"B_in_this_process":        map[string]string{"circ": o.Circ, "ssa": o.SSA, "err": o.Err, "result_on_3_5": c08Eval(o.circ)}}
+			if culprit != nil {
+				what = fmt.Sprintf("%s compiled after %s in one process (fresh Params and Compiler each) differs from its compilation as the first program of a fresh process", B.Name, culprit.Name)
+				replay["program_A"] = culprit
+				replay["pair_in_fresh_process_reproduces"] = true
+			}
+			c.Fail("c08:history:process-level-cache:"+d, what, replay)
+		}
+	}
+	c.Hist(fmt.Sprintf("history-process-pool:%d", len(pool)))
+	return nil
+}
+
 // ---------------------------------------------------------------- probes for further sources of variation
 
 const c08TwoFilesMain = "package main\n\nimport (\n\t\"twofiles\"\n)\n\nfunc main(a, b uint8) uint8 {\n\treturn a + b + twofiles.A[1] + twofiles.B[2]\n}\n"
@@ -1733,6 +1888,9 @@ func runC08(c *Ctx) error {
 	}
 
 	// ---- histories over the state that survives a compilation (reported first)
+	if err := c08RunProcessHistories(c, tmp); err != nil {
+		return err
+	}
 	c08RunHistories(c)
 
 	// ---- oracle and correspondence cases
